@@ -74,7 +74,7 @@ def run(tier, seed, replay):
     thorough = tier == "thorough"
     nthr, nops, repeats = (16, 1200, 8) if thorough else (8, 300, 3)
     rep.rule = ("%d threads x %d operations x %d repeats x 2 providers on the ThreadSanitizer build (and once on the ASan build): each thread "
-                "uses its own builders/checkers, all share one keyring with 9 keys (oct, RSA, RSA-PSS, P-256/384/521, Ed25519, Ed448); each "
+                "uses its own builders/checkers, all share one keyring with 12 keys (five oct keys of 32..300 octets, three of them under one algorithm and two longer than any hash block; RSA, RSA-PSS, P-256/384/521, Ed25519, Ed448); each "
                 "repeat concentrates on three keys so that threads collide; an allocator installed through jwt_set_alloc yields/sleeps at "
                 "random inside library calls; results are compared with a sequential pre-pass. distinct = distinct (build, provider, repeat) "
                 "runs; the evidence reports thread-operations, overlapping same-key operation pairs and injected yields" % (nthr, nops, repeats))
